@@ -66,13 +66,12 @@ def Chained : List Seg → Prop
   | [] => False
   | s :: t => (t = [] → s.next = 0) ∧ (t ≠ [] → s.next ≠ 0 ∧ Chained t)
 
-/-- per-record hypotheses: framing text that cannot be mistaken for `STATV` / `</DATAS>`, a length that fits the length
-byte, no `\'` in the rendering (D13), and the block expression `[..]` not raising on the record (it is tried on every line) -/
+/-- per-record hypotheses: framing text that cannot be mistaken for `STATV` / `</DATAS>` and does not end with `]`, and a
+length that fits the length byte.  (Nothing about the DATA any more: the hypotheses `quotes` (D13) and `noBlockError` went
+with the repairs d863da2 and 609eb50.) -/
 structure RecOK (src dst : List Byte) (r : Rec) : Prop where
   frame : FrameOK r.pre r.post src dst
   len : r.seg.data.length < 256
-  quotes : QuoteSafe (packet src dst r.seg)
-  noBlockError : dataLine (recLine src dst r) ≠ .raises
 
 theorem parseLines_chain (src dst : List Byte) (recs : List Rec) (hch : Chained (recs.map (·.seg)))
     (hok : ∀ r ∈ recs, RecOK src dst r) (s : Snap) :
@@ -82,7 +81,7 @@ theorem parseLines_chain (src dst : List Byte) (recs : List Rec) (hch : Chained 
   | nil => exact absurd hch (by simp [Chained])
   | cons r rs ih =>
     have ok := hok r (by simp)
-    obtain ⟨s1, e1, g1, b1⟩ := traffic_parse s r.pre r.post src dst r.seg ok.frame ok.len ok.quotes ok.noBlockError
+    obtain ⟨s1, e1, g1, b1⟩ := traffic_parse s r.pre r.post src dst r.seg ok.frame ok.len
     cases rs with
     | nil =>
       simp only [List.map_cons, List.map_nil, Chained] at hch
